@@ -111,6 +111,11 @@ def gen_wsdl():
     _one(_compare_consts(fn, "style") == ["rpc"] and _compare_consts(fn, "class_name") == ["Body"],
          "build_envelope_class: style == 'rpc' and class_name == 'Body'")
     _one("namespace" in _strs(fn), "build_envelope_class reads ext.attributes['namespace']")
+    hdr = [n.comparators[0].value for n in ast.walk(fn) if isinstance(n, ast.Compare) and len(n.ops) == 1
+           and isinstance(n.ops[0], ast.NotEq) and isinstance(n.left, ast.Attribute) and n.left.attr == "name"
+           and isinstance(n.comparators[0], ast.Constant)]
+    sorts = [c for c in ast.walk(fn) if isinstance(c, ast.Call) and isinstance(c.func, ast.Attribute) and c.func.attr == "sort"]
+    _one(len(hdr) == 2 and hdr[0] == hdr[1] and len(sorts) == 2, "build_envelope_class: attrs/inner sorted by name != <Header>")
     # build_envelope_fault
     fn = _func(m, C, "build_envelope_fault")
     req = _assign_list(fn, "required_fields")
@@ -177,7 +182,7 @@ def gen_wsdl():
 
     out += d("m_soap_http", tr[0]) + d("m_soap_env", env[0]) + d("m_default_style", dflt[0]) + d("m_rpc", rpc[0])
     out += d("m_input", "input") + d("m_output", "output") + d("m_envelope", meta[0]) + d("m_body", "Body")
-    out += d("m_fault", fault) + d("m_detail", detail) + d("m_lazy", lazy[0]) + d("m_xs_uri", xs) + d("m_string", string_code)
+    out += d("m_header", hdr[0]) + d("m_fault", fault) + d("m_detail", detail) + d("m_lazy", lazy[0]) + d("m_xs_uri", xs) + d("m_string", string_code)
     out += f"Definition m_required_fields : list (list N) := {clist(req, cstr, 'list N')}.\n"
     out += f"Definition m_optional_fields : list (list N) := {clist(opt, cstr, 'list N')}.\n"
     out += d("k_style", "style") + d("k_location", "location") + d("k_transport", "transport") + d("k_soap_action", "soapAction")
